@@ -118,13 +118,20 @@ class SymbolicExpression(Generic[T], ABC):
     def _create_node_(self):
         self._node_ = RWXNode(self._name_, data=self, color=self._plot_color_)
 
-    def _reset_cache_(self) -> None:
+    def _reset_cache_(self, visited: Optional[typing.Set[int]] = None) -> None:
         """
         Reset the cache of the symbolic expression and its children.
+
+        :param visited: The ids of the expressions that have been reset already (an expression can be reached more than
+         once: it is used in several places, or it is a variable that stands for the query of its field constraints).
         """
+        visited = set() if visited is None else visited
+        if id(self) in visited:
+            return
+        visited.add(id(self))
         self._reset_only_my_cache_()
         for child in self._children_:
-            child._reset_cache_()
+            child._reset_cache_(visited)
 
     def _reset_only_my_cache_(self) -> None:
         """
@@ -647,16 +654,21 @@ class QueryObjectDescriptor(CanBehaveLikeAVariable[T], ABC):
                 required_vars.update(conc._unique_variables_)
         return required_vars
 
-    def _reset_only_my_cache_(self) -> None:
-        super()._reset_only_my_cache_()
-        # a selected variable that no condition mentions is not a child of this node in the graph, neither are the
-        # variables it is built from (the arguments of a constructed instance).
+    def _reset_cache_(self, visited: Optional[typing.Set[int]] = None) -> None:
+        visited = set() if visited is None else visited
+        if id(self) in visited:
+            return
+        super()._reset_cache_(visited)
+        # a selected expression that no condition mentions is not a child of this node in the graph, neither is what it
+        # is built from: the expression it is mapped from (flatten(sub_query.items)), the arguments of a constructed
+        # instance. All of that is part of the query and is reset with it.
         for variable in self.selected_variables:
-            variable._var_._reset_only_my_cache_()
+            variable._reset_cache_(visited)
+            variable._var_._reset_cache_(visited)
             if isinstance(variable._var_, Variable):
                 # (not by attribute lookup: inside a symbolic block that builds an expression on a selected mapping)
                 for argument in variable._var_._child_vars_.values():
-                    argument._reset_cache_()
+                    argument._reset_cache_(visited)
 
     def _evaluate_(self, selected_vars: Optional[Iterable[CanBehaveLikeAVariable]] = None,
                    sources: Optional[Dict[int, HashedValue]] = None,
